@@ -520,6 +520,12 @@ Alphabet ==
   CASE Family = "plain" -> PlainItems
     [] Family = "shapes" -> {Shaped(it, sh) : it \in {p \in PlainItems : p.op \in ShapeOps /\ p.arg \notin {"idt", "nop"}}, sh \in Shapes}
                             \cup {It("collect", ""), It("dot", "count"), It("map", "inc")}
+    \* wrappers x block captures (C02 inner chains with captures, C10 exactly-once, C11 hoisting): a small alphabet, longer chains
+    [] Family = "capwrap" ->
+         LET blk == {Shaped(It("map", "inc"), "block"), Shaped(It("then", "inc"), "block"), Shaped(It("and_then", "half"), "block"),
+                     Shaped(It("map", "half"), "block")}
+         IN  blk \cup {Wrap(op) : op \in {"map", "and_then", "find_map", "filter_map"}} \cup {Unwrap, Def(Unwrap)}
+             \cup {It("collect", ""), It("dot", "count"), Def(It("inspect", "nop")), Def(Shaped(It("map", "inc"), "block"))}
     \* C11: block operands on every operator that takes an expression operand, in every step, inside wrappers
     [] Family = "caps" ->
          LET base == {p \in PlainItems : (p.op \in ShapeOps /\ p.arg \notin {"idt", "nop"}) \/ p.op \in {"or", "chain", "zip"}}
@@ -528,7 +534,7 @@ Alphabet ==
              \cup {Wrap(op) : op \in {"map", "and_then", "filter_map"}} \cup {Unwrap}
     [] Family = "wrap"  -> SmallItems \cup WrapItems \cup {Def(it) : it \in {It("map", "inc"), It("inspect", "nop"), It("dot", "is_some")}}
 
-Init == chain \in {[start |-> t, items |-> <<>>] : t \in StartTypes}
+Init == chain \in {[start |-> t, items |-> <<>>] : t \in IF Family = "capwrap" THEN {"OOI", "ItOI", "ItI", "OI"} ELSE StartTypes}
 Next == /\ Len(chain.items) < MaxLen
         /\ \E it \in Extensions(chain, Alphabet) :
               /\ (Family = "wrap" => (Len(chain.items) > 0 \/ it.mv = "wrap" \/ TRUE))
